@@ -24,6 +24,9 @@ ASSUMPTIONS = ["reference semantics in vlib/oracles.py (num = len, flatten = con
 
 
 def gen_case(rng, tier, index):
+    if index % 9 == 8:         # the Python-only half of the property (lane P)
+        from checks import pstreams
+        return pstreams.gen_p(rng, tier, PROPERTY)
     records_below = index % 5 == 4
     if records_below:
         cfg = gen.Cfg(tier, unions=False, strings=False, categorical=False)
@@ -42,6 +45,9 @@ def gen_case(rng, tier, index):
 
 
 def run_case(ctx, case):
+    if case.get("lane") == "P":
+        from checks import pstreams
+        return pstreams.run_p(ctx, case)
     b = ctx.lib
     d = case["layout"]
     v = model.value(d)
